@@ -25,6 +25,7 @@ type BkmOp struct {
 	Yes    bool               `json:"yes,omitempty"`
 	Stdin  string             `json:"stdin,omitempty"`
 	Info   string             `json:"info,omitempty"` // "", dir, file
+	Plain  bool               `json:"plain,omitempty"`       // resolve: the argument is a RELATIVE FILE path spelled like the name (no @); cwd = $ROOT
 	Extra  string             `json:"extra,omitempty"`       // resolve: an additional plain file argument
 	ExtraFirst bool           `json:"extra_first,omitempty"` // ... placed before the bookmark argument
 	Alias  bool               `json:"alias,omitempty"`
@@ -64,6 +65,11 @@ func (bkmEngine) generate(property string, seed int64, index int, tier string) *
 	today := time.Date(2024, 5, 17, 10, 0, 0, 0, time.UTC)
 	bc := &BkmCase{Files: map[string]string{}, NoCfgDir: r.Chance(1, 3), BaseUnix: today.Unix()}
 	for _, f := range []string{"w.klg", "x.klg", "🙂 dir/e.klg", "sub dir/w.klg", "other/x.klg", "sub dir/ü file.klg", "q'uo\"te.klg"} {
+		d := genDoc(r, docOpts{today: today, maxRecords: 2})
+		bc.Files[f] = d.render()
+	}
+	// files in the working directory that are spelled like bookmark names
+	for _, f := range []string{"work", "Work", "z", "default"} {
 		d := genDoc(r, docOpts{today: today, maxRecords: 2})
 		bc.Files[f] = d.render()
 	}
@@ -119,7 +125,11 @@ func (bkmEngine) generate(property string, seed int64, index int, tier string) *
 			if op.Name != "" && !strings.HasPrefix(op.Name, "@") {
 				op.Name = "@" + op.Name
 			}
-			if op.Name != "" && r.Chance(1, 3) {
+			if r.Chance(1, 6) {
+				// a relative FILE argument that happens to be spelled like a bookmark name
+				op.Name = r.Pick([]string{"work", "Work", "z", "default", "privat"})
+				op.Plain = true
+			} else if op.Name != "" && r.Chance(1, 3) {
 				op.Extra = r.Pick([]string{"w.klg", "x.klg", "sub dir/w.klg"})
 				op.ExtraFirst = r.Chance(1, 2)
 			}
@@ -210,6 +220,9 @@ func (op *BkmOp) argv(root string) []string {
 	case "resolve":
 		if op.Name == "" {
 			return []string{"json"}
+		}
+		if op.Plain {
+			return []string{"json", op.Name}
 		}
 		if op.Extra != "" {
 			if op.ExtraFirst {
@@ -340,6 +353,12 @@ func (bkmEngine) execute(sc *Scenario) *Outcome {
 		p := filepath.Join(root, f)
 		_ = os.MkdirAll(filepath.Dir(p), 0o755)
 		_ = os.WriteFile(p, []byte(c), 0o644)
+	}
+	// relative file arguments are resolved against the working directory: make it the scratch root
+	if wd, err := os.Getwd(); err == nil {
+		if os.Chdir(root) == nil {
+			defer os.Chdir(wd)
+		}
 	}
 	cfg := filepath.Join(root, "cfg")
 	if !bc.NoCfgDir {
@@ -518,6 +537,10 @@ func (bkmEngine) execute(sc *Scenario) *Outcome {
 			}
 		case "resolve":
 			p, ok := model[name]
+			if op.Plain {
+				// a plain argument is a file path (relative to the working directory), never a bookmark
+				p, ok = filepath.Join(root, op.Name), true
+			}
 			if !ok {
 				expectFail = true
 			} else if ex, _ := fileValid(p); !ex {
@@ -609,6 +632,9 @@ func (bkmEngine) execute(sc *Scenario) *Outcome {
 			}
 		case "resolve":
 			directArgv := []string{"json", model[name]}
+			if op.Plain {
+				directArgv = []string{"json", filepath.Join(root, op.Name)}
+			}
 			if op.Extra != "" {
 				if op.ExtraFirst {
 					directArgv = []string{"json", filepath.Join(root, op.Extra), model[name]}
@@ -619,7 +645,7 @@ func (bkmEngine) execute(sc *Scenario) *Outcome {
 			direct := runProc(&ProcSpec{Argv: directArgv, Base: clock, Root: root, Cpus: 1, Env: env})
 			out.Procs++
 			if direct.Stdout != res.Stdout || direct.ExitCode != res.ExitCode {
-				report(i, op, argv, "resolve-differs", fmt.Sprintf("`klog json %s` and `klog json %s` differ: %q vs %q", op.Name, model[name], shortText(res.Stdout, 200), shortText(direct.Stdout, 200)))
+				report(i, op, argv, "resolve-differs", fmt.Sprintf("`klog json %s` and `klog json %s` differ: %q vs %q", op.Name, directArgv[1], shortText(res.Stdout, 200), shortText(direct.Stdout, 200)))
 			}
 		case "set":
 			if op.Create {
